@@ -74,6 +74,14 @@ class Suite:
         self.thread_every = 6 if prop in self.SOLVER_PROPS else 0
         if self.thread_every:
             self.bound += "; every %dth case repeated with bldfm.config.NUM_THREADS = 2 or 4 (parallel kernel variant)" % self.thread_every
+        # ... and every `cache_every`-th case is run a second time with a result cache attached to each footprint solve
+        # (the `cache=` argument belongs to the call the properties quantify over): before the request itself the same
+        # cache serves near-twin requests (background, level order / another level, halo, tower, grid shape, precision,
+        # one profile component), then the request is made twice and the answer served from the cache is what the case
+        # judges.  The case parameter "_cache" is consumed here, never seen by the kind.
+        self.cache_every = 7 if prop in self.SOLVER_PROPS else 0
+        if self.cache_every:
+            self.bound += "; every %dth case repeated with a GreensFunctionCache attached to its footprint solves after near-twin requests through the same cache" % self.cache_every
 
     def kind(self, name):
         def deco(fn):
@@ -84,22 +92,32 @@ class Suite:
     def run_case(self, kind, params):
         params = dict(params)
         threads = params.pop("_threads", None)
+        cached = params.pop("_cache", None)
+        undo = None
         try:
             if threads:
                 import bldfm.config as _cfg
                 _cfg.NUM_THREADS = int(threads)
+            if cached:
+                undo = _attach_cache(int(cached))
             v = self.kinds[kind](**params)
             if not isinstance(v, Verdict):
                 v = Verdict(bool(v))
             if threads and not v.ok:
                 v.detail = "[NUM_THREADS=%d] %s" % (threads, v.detail)
+            if cached and not v.ok:
+                v.detail = "[footprint solves served through a cache after near-twin requests] %s" % v.detail
             return v, None
+        except CacheChangesResult as e:
+            return Verdict(False, str(e), key="result-through-a-cache-differs"), None
         except Exception:  # a crash of the real code on an admitted input is reported apart
             return None, traceback.format_exc(limit=8)
         finally:
             if threads:
                 import bldfm.config as _cfg
                 _cfg.NUM_THREADS = 1
+            if undo:
+                undo()
 
     def main(self, generate):
         ap = argparse.ArgumentParser()
@@ -136,6 +154,8 @@ class Suite:
                 k += 1
                 if self.thread_every and k % self.thread_every == 0 and "_threads" not in params:
                     yield kind, dict(params, _threads=(2, 4)[(k // self.thread_every) % 2])
+                if self.cache_every and k % self.cache_every == 0 and "_cache" not in params and "_threads" not in params:
+                    yield kind, dict(params, _cache=k)
         for kind, params in with_threads():
             if a.max_seconds and time.time() - t0 > a.max_seconds:
                 break
@@ -177,6 +197,98 @@ class Suite:
         else:
             print(txt)
         sys.exit(0)
+
+
+# ----------------------------------------------------------------------------- cache-history variant
+class CacheChangesResult(BaseException):     # not an Exception: the suites treat Exception as behaviour of the solver
+    pass
+
+
+def _attach_cache(salt):
+    """Replace bldfm.solver.steady_state_transport_solver (the suites import it at call time) by a wrapper that serves
+    every footprint solve WITHOUT a caller-supplied cache through one GreensFunctionCache per case: three near-twin
+    requests first (rotating through the menu below), then the request twice; the second answer is returned.  On a tree
+    where the cache is transparent the case sees exactly the arrays of the uncached solve."""
+    import inspect
+    import tempfile
+    import numpy as np
+    import bldfm.solver as _sol
+    from bldfm.cache import GreensFunctionCache
+    real = _sol.steady_state_transport_solver
+    sig = inspect.signature(real)
+    d = tempfile.mkdtemp(prefix="cache", dir=os.getcwd())
+    cache = GreensFunctionCache(cache_dir=d)
+    state = {"n": salt, "last": []}
+
+    def twins(b):
+        a = b.arguments
+        q0, z, prof, dom = a["srf_flx"], a["z"], a["profiles"], a["domain"]
+        ny, nx = np.shape(q0)
+        dx, dy = dom[0] / nx, dom[1] / ny
+        lv = a["levels"]
+        nz = len(z)
+        out = [dict(srf_bg_conc=float(a["srf_bg_conc"]) + 1.7)]
+        if np.ndim(lv) > 0 and len(lv) > 1:
+            l = [int(x) for x in np.asarray(lv).tolist()]
+            out += [dict(levels=l[::-1]), dict(levels=l[1:] + l[:1]), dict(levels=np.asarray(sorted(l)))]
+        else:
+            l0 = int(np.asarray(lv).ravel()[0])
+            out += [dict(levels=l0 - 1 if l0 >= 1 else min(l0 + 1, nz - 1)), dict(levels=[l0]), dict(levels=[l0, max(l0 - 1, 0)])]
+        h = a["halo"]
+        if h is not None:
+            out += [dict(halo=float(h) + dy), dict(halo=float(h) + dx), dict(halo=float(h) + 0.5 * min(dx, dy)), dict(halo=None)]
+        else:
+            out += [dict(halo=float(max(dom)) + min(dx, dy)), dict(halo=float(max(dom)) - 0.5 * min(dx, dy))]
+        xm, ym = a["meas_pt"]
+        out += [dict(meas_pt=(float(xm) + dx, float(ym))), dict(meas_pt=(float(xm), float(ym) + dy))]
+        out += [dict(srf_flx=np.zeros((ny, nx + 2))), dict(srf_flx=np.zeros((ny + 2, nx)))]
+        out += [dict(precision="single" if a["precision"] == "double" else "double")]
+        for c in (0, 1, 2, 3, 4):
+            if all(prof[c] is not prof[o] for o in range(5) if o != c) or c == 4:
+                pr = [np.array(x, copy=True) for x in prof]
+                pr[c] = pr[c] * 1.25
+                out.append(dict(profiles=tuple(pr)))
+        out += [dict(domain=(dom[0] * 1.5, dom[1])), dict(domain=(dom[1], dom[0]))]
+        return out
+
+    def solve(*args, **kw):
+        b = sig.bind(*args, **kw)
+        b.apply_defaults()
+        if not b.arguments["footprint"] or b.arguments["cache"] is not None:
+            return real(*args, **kw)
+        menu = twins(b)
+        for j in range(3):
+            t = menu[(state["n"] + 5 * j) % len(menu)]
+            state["n"] += 1
+            state.setdefault("hist", []).append(sorted(t))
+            state["last"] = state["hist"][-3:]
+            try:
+                real(**dict(b.arguments, cache=cache, **t))
+            except Exception:
+                pass            # a near-twin the solver rejects is simply not part of the history
+        real(**dict(b.arguments, cache=cache))
+        got = real(**dict(b.arguments, cache=cache))
+        # what the property was judged on elsewhere in this suite is the uncached solve; a solve through a cache must
+        # return the same fields on the same grid (the kind's own oracle cannot always see a difference: a stale
+        # background cancels in "conc(bg) - conc(0) = bg")
+        ref = real(**dict(b.arguments, cache=None))
+        tol = 1e-9 if b.arguments["precision"] == "double" else 1e-4
+        names = ("X", "Y", "Z", "conc", "flx")
+        for nm, x, y in zip(names, list(got[0]) + [got[1], got[2]], list(ref[0]) + [ref[1], ref[2]]):
+            x, y = np.asarray(x), np.asarray(y)
+            if x.shape != y.shape or not np.all(np.abs(x - y) <= tol * max(float(np.max(np.abs(y))), 1e-300)):
+                dev = "shape %s vs %s" % (x.shape, y.shape) if x.shape != y.shape else "max deviation %.3e of the maximum" % (
+                    float(np.max(np.abs(x - y))) / max(float(np.max(np.abs(y))), 1e-300))
+                raise CacheChangesResult("%s of a footprint solve served through a cache differs from the same solve without one (%s); "
+                                         "earlier requests through that cache differed from it by %s" % (nm, dev, state["last"]))
+        return got
+
+    _sol.steady_state_transport_solver = solve
+
+    def undo():
+        _sol.steady_state_transport_solver = real
+        shutil.rmtree(d, ignore_errors=True)
+    return undo
 
 
 # ----------------------------------------------------------------------------- helpers
